@@ -80,7 +80,7 @@ impl Group for Framing {
         "c08.conn"
     }
     fn rule(&self) -> &'static str {
-        "a real loopback server; ONE keep-alive connection carrying 1-12 requests, each sent after the previous response was read, over 22 request kinds: GET/HEAD/POST/OPTIONS to cached, uncached, empty-body, 204, missing paths; gzip/br/zstd negotiation; ranges 206/416 (also HEAD); If-Modified-Since (304); unsafe paths (400, also HEAD); identity;q=0 (406); cross-origin (403); a 70 kB compressed body; and a rate-limited server (max 4) where the sequence crosses into 429 (also for HEAD); the raw connection bytes are captured and given to the model's strict client (parseAll), whose result is compared with the harness' own strict reader; oracle: one response per request in order, status in the expected set, exactly one content-length equal to the body bytes that follow, zero body bytes for HEAD, HEAD length = GET length for the same headers; non-trivial = >= 3 requests incl. a HEAD or an error"
+        "a real loopback server; ONE keep-alive connection carrying 1-12 requests, each sent after the previous response was read (one in five written in two TCP segments 25 ms apart: the blank line on its own, the last LF on its own, cuts elsewhere), over 22 request kinds: GET/HEAD/POST/OPTIONS to cached, uncached, empty-body, 204, missing paths; gzip/br/zstd negotiation; ranges 206/416 (also HEAD); If-Modified-Since (304); unsafe paths (400, also HEAD); identity;q=0 (406); cross-origin (403); a 70 kB compressed body; and a rate-limited server (max 4) where the sequence crosses into 429 (also for HEAD); the raw connection bytes are captured and given to the model's strict client (parseAll), whose result is compared with the harness' own strict reader; oracle: one response per request in order, status in the expected set, exactly one content-length equal to the body bytes that follow, zero body bytes for HEAD, HEAD length = GET length for the same headers; non-trivial = >= 3 requests incl. a HEAD or an error"
     }
     fn parallel(&self) -> bool {
         false
@@ -92,10 +92,15 @@ impl Group for Framing {
             "c08.conn 1 [get,get,head,head,head,head,get,head,get]".to_owned(),
             "c08.conn 0 [getgz,headgz,get,head,range,headrange]".to_owned(),
         ];
+        // requests arriving in two TCP segments: the blank line on its own, the last LF on its own, cuts elsewhere
+        v.push("c08.conn 0 [get,get/2,head/1,get/4,get/3,getgz/2,head/2,get/-1,get/-9,post/2,get]".to_owned());
         for i in 0..n {
             let limited = i % 5 == 0;
             let k = rng.range(1, 12);
-            v.push(format!("c08.conn {} {}", b01(limited), list((0..k).map(|_| (*rng.pick(&KINDS)).to_owned()))));
+            v.push(format!("c08.conn {} {}", b01(limited), list((0..k).map(|_| {
+                let kind = (*rng.pick(&KINDS)).to_owned();
+                if kind != "postlate" && rng.chance(1, 5) { format!("{kind}/{}", *rng.pick(&[1i64, 2, 3, 4, 5, -1, -5, -17])) } else { kind }
+            }))));
         }
         v
     }
@@ -118,10 +123,22 @@ impl Group for Framing {
         let mut last_get_len: std::collections::HashMap<String, usize> = Default::default();
         let kinds = parse_list(p[2]).unwrap();
         for (i, k) in kinds.iter().enumerate() {
+            // `kind/N`: the request is written in two segments, the second holding its last N bytes, 25 ms apart
+            // (N = 2: the blank line on its own; N = 1: `…\r\n\r` | `\n`); `kind/-N`: cut N bytes after the start
+            let (k, split): (&String, Option<i64>) = (k, None);
+            let (base, split) = match k.split_once('/') { Some((b, n)) => (b.to_owned(), n.parse::<i64>().ok()), None => (k.clone(), split) };
+            let k = &base;
             let (raw, expect, head) = kind(k);
             let mut bytes = raw.into_bytes();
             bytes.extend_from_slice(b"\r\n");
-            if cl.send(&bytes).is_err() {
+            let sent = match split {
+                None => cl.send(&bytes),
+                Some(n) => {
+                    let cut = if n >= 0 { bytes.len().saturating_sub(n as usize) } else { ((-n) as usize).min(bytes.len()) };
+                    cl.send(&bytes[..cut]).and_then(|_| { std::thread::sleep(std::time::Duration::from_millis(25)); cl.send(&bytes[cut..]) })
+                }
+            };
+            if sent.is_err() {
                 if i > 0 && kinds[i - 1] == "postlate" { break; } // the server closed after the unread body: fine
                 problems.push(format!("request {i} ({k}): send failed")); break;
             }
